@@ -289,6 +289,7 @@ def run(ctx):
     # document hooks over a two-document load and a warm document cache
     doc_checks(ctx)
     dynamic_plugin_lists(ctx)
+    init_edits_and_fragment_urls(ctx)
     ctx.sample(metas[min(50, len(metas) - 1)])
     ctx.sample(metas[-1])
 
@@ -461,6 +462,65 @@ def dynamic_plugin_lists(ctx):
     if log != ["old.marshalled", "new.received"]:
         ctx.fail("the reply stages of a request built earlier do not go to the plugins configured now",
                  {"stream": "dynamic-plugins"}, list(log), ["old.marshalled", "new.received"])
+
+
+def init_edits_and_fragment_urls(ctx):
+    """(a) what an init plugin does to the loaded WSDL is what the client is then built from (its service selector and
+    service definitions see the edit); (b) document hooks are given the URL the document was asked for under -
+    fragment included."""
+    import io
+    import suds.client
+    import suds.plugin
+    import suds.transport
+    from harness.props import c10
+    w2 = c10.make_wsdl([("S1", [("P1", "B1")]), ("S2", [("P1", "B2")])])
+
+    class DropSecond(suds.plugin.InitPlugin):
+        def initialized(self, context):
+            del context.wsdl.services[1:]
+    ctx.case(("init-edit",), True)
+    try:
+        c = wsdlkit.client(w2, plugins=[DropSecond()], nosend=True)
+        facts = [len(c.sd), [sd.service.name for sd in c.sd]]
+        try:
+            c.service["S2"]
+            facts.append("S2 selectable")
+        except Exception as e:
+            facts.append(type(e).__name__)
+    except Exception as e:
+        facts = repr(e)
+    if facts != [1, ["S1"], "PortNotFound"]:
+        ctx.fail("the client was not built from the WSDL as the init plugins left it", {"stream": "init-edit"}, facts,
+                 [1, ["S1"], "PortNotFound"])
+    inc = ('<xsd:schema xmlns:xsd="http://www.w3.org/2001/XMLSchema" targetNamespace="urn:inc">'
+           '<xsd:element name="e" type="xsd:string"/></xsd:schema>').encode()
+    main = wsdlkit.wsdl_doc('<xsd:import namespace="urn:inc" schemaLocation="http://docs.invalid/inc.xsd#part2"/>'
+                            '<xsd:element name="f" type="xsd:string"/>', "f", None)
+    seen = []
+
+    class Urls(suds.plugin.DocumentPlugin):
+        def loaded(self, context):
+            seen.append(("loaded", context.url))
+
+        def parsed(self, context):
+            seen.append(("parsed", context.url))
+
+    class T(suds.transport.Transport):
+        def open(self, request):
+            return io.BytesIO(main if "main.wsdl" in request.url else inc)
+
+        def send(self, request):
+            raise AssertionError("no send")
+    ctx.case(("fragment-url",), True)
+    try:
+        suds.client.Client("http://docs.invalid/main.wsdl#top", transport=T(), cache=None, plugins=[Urls()])
+    except Exception as e:
+        seen.append(("error", repr(e)))
+    want = [("loaded", "http://docs.invalid/main.wsdl#top"), ("parsed", "http://docs.invalid/main.wsdl#top"),
+            ("loaded", "http://docs.invalid/inc.xsd#part2"), ("parsed", "http://docs.invalid/inc.xsd#part2")]
+    if seen != want:
+        ctx.fail("document hooks are not given the URL the document was asked for under", {"stream": "fragment-url"},
+                 seen, want)
 
 
 def widen(ctx):
